@@ -111,3 +111,13 @@ MUTANTS += [
     dict(prop="C04", name="clip allows start after end when equal check flipped", file="data/clips.py", old="        if values[\"start_time\"] > values[\"end_time\"]:", new="        if values[\"start_time\"] >= values[\"end_time\"]:"),
     dict(prop="C04", name="project check uses annotation uuid", file="data/annotation_projects.py", old="            if annotated_clip.clip.uuid not in clip_ids:", new="            if annotated_clip.uuid not in clip_ids:"),
 ]
+EE = "evaluation/encoding.py"
+MUTANTS += [
+    dict(prop="C19", name="encoder keys on value only", file=EE, old="            (tag.term, tag.value): i for i, tag in enumerate(tags)", new="            tag.value: i for i, tag in enumerate(tags)"),
+    dict(prop="C19", name="classification returns last match", file=EE, old="        encoded = encoder.encode(tag)\n        if encoded is not None:\n            return encoded\n    return None", new="        encoded = encoder.encode(tag)\n        if encoded is not None:\n            found = encoded\n    return None"),
+    dict(prop="C19", name="multilabel counts instead of marking", file=EE, old="        encoded[index] = 1", new="        encoded[index] = 2"),
+    dict(prop="C19", name="prediction keeps first score", file=EE, old="        encoded[index] = prediction.score", new="        encoded[index] = max(encoded[index], prediction.score)"),
+    dict(prop="C19", name="Tag hash includes object identity", file="data/tags.py", old="        return hash((self.term, self.value))", new="        return hash((self.term, self.value, id(self)))"),
+    dict(prop="C19", name="Term hash on label", file="data/terms.py", old="        return hash(self.name)", new="        return hash(self.label)", expect="clean"),
+    dict(prop="C19", name="SoundEvent hash on geometry id", file="data/sound_events.py", old="        return hash(self.uuid)", new="        return hash(id(self.geometry))"),
+]
